@@ -49,6 +49,8 @@ func c02run(c *hx.Ctx, cs c02case) error {
 	fail := func(sig, detail string, extra interface{}) {
 		c.Fail(sig, detail, map[string]interface{}{"case": cs, "at": extra})
 	}
+	// the second replica's identity (key 1) goes online so that it can take turns proposing
+	p.H.S.Send(A, 1, chainfx.OnlineTx(true))
 	var included []*types.Transaction
 	capGas := types.MaxBlockSize(A.Cfg.Consensus.EnableUpgrade11)
 	u10 := A.Cfg.Consensus.EnableUpgrade10
@@ -179,7 +181,40 @@ func c02run(c *hx.Ctx, cs c02case) error {
 				c.Rep.Distinct++
 			}
 		}
-		// end to end: A proposes, B validates the wire clone and inserts, A inserts
+		// split gossip (ceremony sessions): a participant signs two ceremony transactions of one kind with consecutive
+		// nonces; the first reaches only A, the second only B (where it waits for its nonce).  After A's block applied the
+		// first, B's pool promotes the second; when B proposes next it must not build a block A refuses.
+		for i := range p.W.Keys {
+			per := A.App.State.ValidationPeriod()
+			if per < 2 || per > 3 || r.Intn(3) != 0 {
+				continue
+			}
+			st := A.App.State
+			n0 := st.GetNonce(p.W.Addrs[i])
+			if st.GetEpoch(p.W.Addrs[i]) < st.Epoch() {
+				n0 = 0
+			}
+			mk := func(k int) *types.Transaction {
+				tx := &types.Transaction{Epoch: st.Epoch(), AccountNonce: n0 + uint32(1+k), MaxFee: chainfx.Dna(100)}
+				if per == 2 {
+					hh := common.Hash{byte(i), byte(k), byte(b)}
+					tx.Type, tx.Payload = types.SubmitAnswersHashTx, hh[:]
+				} else {
+					tx.Type, tx.Payload = types.SubmitLongAnswersTx, chainfx.LongAnswersPayload(A, p.W.Keys[i], []byte{byte(k), byte(b), 7})
+				}
+				stx, _ := types.SignTx(tx, p.W.Keys[i])
+				return stx
+			}
+			if A.Pool.AddExternalTxs(validation.InboundTx, mk(0)) == nil && B.Pool.AddExternalTxs(validation.InboundTx, mk(1)) == nil {
+				c.Hit("split-gossip:ceremony-tx-pair")
+			}
+		}
+		// end to end: the proposer (A, or B when it is eligible and its turn) proposes, the other validates the wire clone
+		// and inserts, the proposer inserts
+		if b%3 == 2 && B.IsEligibleProposer() {
+			A, B = B, A
+			c.Hit("proposer:second-replica")
+		}
 		prop, err := A.Propose()
 		if err != nil {
 			fail("C02:propose-failed", err.Error(), b)
@@ -218,6 +253,7 @@ func c02run(c *hx.Ctx, cs c02case) error {
 		included = append(included, prop.Block.Body.Transactions...)
 		c.Hit(fmt.Sprintf("block-flags:%d", prop.Block.Header.Flags()))
 		c.Hit("blocks")
+		A, B = p.A, p.B
 	}
 	for k, v := range p.H.Stats {
 		for i := 0; i < v; i++ {
@@ -318,7 +354,7 @@ func init() {
 		c.Rep.Rule = "two real replicas, histories over >=2 epochs incl. ceremonies; per block: candidate lists = A's pool list and an adversarial list (shuffled, stale, future-nonce, duplicate, conflicting: overspend chains, kill+later txs, double invitations, delegation/online flapping, payloads crossing the gas cap); evaluation = one candidate list through real filterTxs + processTxs + reference; distinct non-trivial = lists with >=2 candidates of which at least one was skipped"
 		nh := c.Scale(4, 120)
 		for i := 0; i < nh; i++ {
-			cs := c02case{Seed: c.Seed*1000 + int64(i), Blocks: 100}
+			cs := c02case{Seed: c.Seed*1000 + int64(i), Blocks: 140}
 			if err := c02run(c, cs); err != nil {
 				return err
 			}
